@@ -155,8 +155,21 @@ example : (run Skeleton.current init
     (fun s => decide ((s.calls 0).outcome = .ok ⟨some 42, .none⟩ ∧ s.bc.deliveries = [⟨0, 0, 0, 0, 42⟩])) = some true := by
   decide
 
+/-- A failed transport read reaches `setErr` without waiting for anybody: in both read loops the error
+    branch runs `setErr` and leaves (`…ExitsOnReadErr`), and nothing in the loop bodies outside the
+    spawned goroutines can wait — no lock, channel operation or `sync` wait, directly or through a
+    local closure (checked against the regenerated skeleton).  `setErrEnter` is therefore an
+    always-enabled step of M2, as the theorems above assume; a loop that first had to take a lock
+    held by application code (e.g. the remote-enumeration callback inside which the in-flight call
+    was issued) would never close the pending-call table. -/
+theorem C03_read_failure_reaches_setErr :
+    Skeleton.current.reqLoopExitsOnReadErr = true ∧ Skeleton.current.respLoopExitsOnReadErr = true ∧
+    Skeleton.current.respLoopSetErrOnReadErr = true ∧
+    Skeleton.current.reqLoopBlocksOnlyOnRead = true ∧ Skeleton.current.respLoopBlocksOnlyOnRead = true := by decide
+
 end Panrpc.Ep
 
+#print axioms Panrpc.Ep.C03_read_failure_reaches_setErr
 #print axioms Panrpc.Ep.C03_setErr_closes
 #print axioms Panrpc.Ep.C03_ended_means_closed
 #print axioms Panrpc.Ep.C03_closed_forever
